@@ -26,6 +26,8 @@ HOLDERS = {
     "nested-holder": (St(("inner", St(("r", Ref(P)), ("z", Sc("i8")))), ("k", Sc("i64"))), [("inner", "r")], [P]),
     "uref-array-member": (St(("u", URef(DA, P)), ("t", STR)), [("u",)], [DA, P]),
     "standalone-uref": (URef(P, Q), [()], [P, Q]),
+    # a chain: the referent itself holds a reference (a foreign / plain-data binding must duplicate the whole chain)
+    "ref-chain": (St(("r", Ref(St(("x", Sc("i64")), ("r2", Ref(P))))), ("k", Sc("i64"))), [("r",)], [St(("x", Sc("i64")), ("r2", Ref(P)))]),
     # two union classes sharing their members in different positions (member index is per union class)
     "two-unions": (St(("u", URef(P, Q)), ("w", URef(Q, P)), ("k", Sc("i64"))), [("u",), ("w",)], [P, Q]),
     "union-subset": (St(("u", URef(Q, P)), ("w", URef(P)), ("k", Sc("i8"))), [("u",), ("w",)], [P, Q]),
